@@ -85,13 +85,13 @@ theorem C11_square_avx512_128 (a : V8) (i : Fin 8) :
 
 /-- square_avx512 -/
 theorem C11_square_avx512 (a : V8) (i : Fin 8) :
-    ((square_avx512 a).1.get i).toNat % P = ((a.get i).toNat * (a.get i).toNat) % P := (square512_spec a i).1
+    ((square_avx512 a).get i).toNat % P = ((a.get i).toNat * (a.get i).toNat) % P := square512_spec a i
 
 /-- the general-purpose kernels yield the field element the scalar op yields on the lane's operands -/
 theorem C11_agrees_with_scalar (a b : V8) (i : Fin 8) :
     ((add_avx512__wWW a b).get i).toNat % P = C01.rd (Gen.Scalar.add__eEE (a.get i) (b.get i)) ∧
     ((mult_avx512 a b).get i).toNat % P = C01.rd (Gen.Scalar.mul__eEE (a.get i) (b.get i)) ∧
-    ((square_avx512 a).1.get i).toNat % P = C01.rd (Gen.Scalar.square__rE (a.get i)) ∧
+    ((square_avx512 a).get i).toNat % P = C01.rd (Gen.Scalar.square__rE (a.get i)) ∧
     ((toCanonical_avx512 a).get i) = Gen.Scalar.toU64__rE (a.get i) := by
   refine ⟨?_, ?_, ?_, ?_⟩
   · rw [C11_add_avx512, (C01.C01_add _ _).1]
